@@ -138,7 +138,8 @@ def runTx (d : D) (o : Op) : D × String :=
   | .err e => (d, "=> err ;; " ++ e)
   | .panic e => (d, "=> panic ;; " ++ e)
   | .ok () =>
-    if o.kind == "tx.ethblock" then
+    if o.str "oog" == "1" then (d, "=> err ;; out-of-gas") -- the gas limit runs out inside the handler: the branch is dropped
+    else if o.kind == "tx.ethblock" then
       match newEthBlock d o with
       | .ok d' => (d', "=> ok")
       | .err e => (d, "=> err ;; " ++ e)
